@@ -421,6 +421,31 @@ def run_case(desc):
     if msg:
         raise Violation(sig('not-repeatable'), '{}: {}'.format(name, msg))
 
+    # (1c) the returned element belongs to the caller: overwriting it must
+    # change neither x nor what the operator returns afterwards (an operator
+    # must not hand out its own state, e.g. a stored constant or a cache)
+    if not isinstance(ran, Field) and name not in zoo.VIEW_ALLOWED and \
+            V is None:
+        keep = r.copy()
+        _fill(r, ran, float(desc['sentinel']))
+        _fill(rr, ran, np.nan)
+        check_x('result-overwritten')
+        try:
+            r3 = op(x)
+        except Exception as e:  # noqa
+            raise Violation(sig('oop-raises', type(e).__name__ +
+                                '|after-result-overwritten', exc=e),
+                            '{}: op(x) raised {!r} after an earlier result '
+                            'was overwritten'.format(name, e))
+        msg = compare(r3, keep, ran, exact=not zoo.uses_pyfftw(op),
+                      ktol=K_TOL, fft=fft)
+        if msg:
+            raise Violation(sig('result-aliases-state'),
+                            '{}: op(x) changed after the caller overwrote '
+                            'an earlier result: {}'.format(name, msg))
+        r = keep
+        strata.append('result-overwrite-checked')
+
     nontrivial = False
     if op.is_functional:
         # (4) functionals reject out
